@@ -448,8 +448,15 @@ fn mutate(t: &T, k: &mut usize, rng: &mut Rng) -> T {
 fn doc(a2ml: &str, insts: &[Vec<String>]) -> String {
     let mut s = String::from("ASAP2_VERSION 1 71\n/begin PROJECT p \"\"\n/begin MODULE m \"\"\n");
     s.push_str(&format!("/begin A2ML\n{a2ml}\n/end A2ML\n"));
-    for inst in insts {
-        s.push_str(&format!("/begin IF_DATA {}\n/end IF_DATA\n", inst.join(" ")));
+    for (i, inst) in insts.iter().enumerate() {
+        // every second block with one token per line and every /end one more line down (start and end offsets of the
+        // items differ then)
+        if i % 2 == 0 {
+            s.push_str(&format!("/begin IF_DATA {}\n/end IF_DATA\n", inst.join(" ")));
+        } else {
+            let body: Vec<String> = inst.iter().map(|t| if t == "/end" { "\n    /end".to_string() } else { format!("    {t}") }).collect();
+            s.push_str(&format!("/begin IF_DATA\n{}\n/end IF_DATA\n", body.join("\n").replace("/end\n    ", "/end ")));
+        }
     }
     s.push_str("/end MODULE\n/end PROJECT\n");
     s
